@@ -1,40 +1,47 @@
 (* C05 — batch authorization equals brute-force authorization of every substitution.
-   do_batch / batch_authorize = model of x/exp/batch/batch.go (Impl/Batch.v).  Proofs: Proofs/BatchProofs.v.
-   Hypotheses (batch_hyps): clean store, well-formed request parts without ignore markers, clean policies, well-formed
-   marker-free variable values, and tmpl_ok: unknowns are whole request parts or record fields at any depth.
-   *_partial*: unknowns nested inside SETS are not covered by the theorem (no counterexample known; the correspondence run and the
-   brute-force oracle do cover them). *)
+   do_batch / batch_authorize = model of x/exp/batch/batch.go (Impl/Batch.v).  Proofs: Proofs/BatchProofs.v, Proofs/BatchSets.v.
+   Hypotheses (batch_hyps'): clean store, well-formed request parts without ignore markers, clean policies, well-formed marker-free
+   variable values.  Unknowns may sit ANYWHERE in a request part: whole parts, record fields at any depth, members of sets, of sets of
+   records, of sets of sets (the earlier restriction tmpl_ok is gone: Proofs/BatchSets.v).
+   Equality of results is literal equality of model values; a model set is its member list in first-insertion order, so for the Go
+   structures read the request component as equality of set VALUES (Go's map layout is not part of a value). *)
 From Coq Require Import List Bool.
 Import ListNotations.
-From Cedar Require Import Lang.Value Lang.Expr Impl.Eval Impl.Partial Impl.Batch Proofs.PartialProofs Proofs.BatchProofs.
+From Cedar Require Import Lang.Value Lang.Expr Impl.Eval Impl.Partial Impl.Batch Proofs.PartialProofs Proofs.BatchProofs Proofs.BatchSets.
 
 (* every substitution of the Cartesian product exactly once, in order, each with the result of the ordinary authorizer on the
    ORIGINAL policies under the substituted request (request, values, decision, reason ids) *)
-Theorem C05_batch_is_bruteforce_partial : forall vars en ps, batch_hyps vars en ps ->
+Theorem C05_batch_is_bruteforce : forall vars en ps, batch_hyps' vars en ps ->
   let '(rs, _, st) := do_batch false vars en [] ps None in
   match st with
   | BOk => map Some rs = map (brute en ps) (product vars)
   | BInvalidPart => exists b, In b (product vars) /\ brute en ps b = None
   | _ => False
   end.
-Proof. exact do_batch_is_bruteforce. Qed.
+Proof. exact do_batch_is_bruteforce_full. Qed.
 
-Theorem C05_once_each_partial : forall vars en ps, batch_hyps vars en ps ->
+Theorem C05_once_each : forall vars en ps, batch_hyps' vars en ps ->
   let '(rs, _, st) := do_batch false vars en [] ps None in
   st = BOk -> List.length rs = List.length (product vars) /\ map br_values rs = product vars.
-Proof. exact batch_once_each. Qed.
+Proof. exact batch_once_each_full. Qed.
+
+(* the entry point with its checks (unbound / unused variables, empty value lists) *)
+Theorem C05_authorize_is_bruteforce : forall vars en ps, batch_hyps' vars en ps ->
+  let '(rs, st) := batch_authorize false vars en ps None in
+  st = BOk -> map Some rs = map (brute en ps) (product vars).
+Proof. exact batch_authorize_bruteforce_full. Qed.
 
 (* the callback fails on its (k+1)-th invocation: enumeration stops right there with that error *)
-Theorem C05_stops_on_failure_partial : forall vars en ps k, batch_hyps vars en ps ->
+Theorem C05_stops_on_failure : forall vars en ps k, batch_hyps' vars en ps ->
   (forall b, In b (product vars) -> brute en ps b <> None) ->
   (k < List.length (product vars))%nat ->
   let '(full, _, _) := do_batch false vars en [] ps None in
   let '(rs, _, st) := do_batch false vars en [] ps (Some k) in
   st = BCallbackFailed /\ List.length rs = S k /\ rs = firstn (S k) full.
-Proof. exact batch_stops_on_failure. Qed.
+Proof. exact batch_stops_on_failure_full. Qed.
 
 (* the context is cancelled during the k-th callback: no further callback is made *)
-Theorem C05_stops_on_cancel_partial : forall vars en ps k, batch_hyps vars en ps ->
+Theorem C05_stops_on_cancel : forall vars en ps k, batch_hyps' vars en ps ->
   (forall b, In b (product vars) -> brute en ps b <> None) ->
   (k <= List.length (product vars))%nat ->
   let '(full, _, _) := do_batch false vars en [] ps None in
@@ -42,9 +49,14 @@ Theorem C05_stops_on_cancel_partial : forall vars en ps k, batch_hyps vars en ps
   List.length rs = k /\ rs = firstn k full /\
   ((k < List.length (product vars))%nat -> st = BCancelled) /\
   (k = List.length (product vars) -> (0 < k)%nat -> st = BOk /\ bud = Some O).
-Proof. exact batch_stops_on_cancel. Qed.
+Proof. exact batch_stops_on_cancel_full. Qed.
 
-Print Assumptions C05_batch_is_bruteforce_partial.
-Print Assumptions C05_once_each_partial.
-Print Assumptions C05_stops_on_failure_partial.
-Print Assumptions C05_stops_on_cancel_partial.
+(* the hypotheses are satisfiable with unknowns below set members, and that instance is outside the old restriction *)
+Example C05_nonvacuous_sets : batch_hyps' bx_vars_set bx_env_set bx_ps_set.
+Proof. exact bx_set_hyps'. Qed.
+
+Print Assumptions C05_batch_is_bruteforce.
+Print Assumptions C05_once_each.
+Print Assumptions C05_authorize_is_bruteforce.
+Print Assumptions C05_stops_on_failure.
+Print Assumptions C05_stops_on_cancel.
